@@ -373,6 +373,15 @@ def adiagSlot (nbins : Nat) (counts : List Nat) (r : Option (PostRead α)) : Lis
 def adiagStep (nbins : Nat) (reads : List (Option (PostRead α))) (counts : List Nat) : List Nat :=
   reads.foldl (adiagSlot nbins) counts
 
+/-- `ActionSequence::step` on host (global/ActionSequence.cc, `skip_post_action`): when the state
+    has exactly ONE track slot, every action of order `StepActionOrder::post` whose id differs
+    from that slot's `post_step_action` is skipped.  `ActionDiagnostic::order()` is `post` and its
+    id is never a track's post-step action, so with one slot it is never executed (its
+    per-stream counters are never even allocated). -/
+def adiagSeqStep (nslots nbins : Nat) (reads : List (Option (PostRead α))) (counts : List Nat) :
+    List Nat :=
+  if nslots == 1 then counts else adiagStep nbins reads counts
+
 /-- `StepDiagnosticExecutor` under `make_active_track_executor` -/
 def sdiagSlot (nbins : Nat) (counts : List Nat) (r : Option (PostRead α)) : List Nat :=
   match r with
